@@ -69,6 +69,11 @@ class FuncLowerer:
             c = '%s_%d' % (base, k)
         self.used_locals.add(c)
         self.local_names[decl['id']] = c
+        # positional names for specs: @p1@ ... parameters, @l1@ ... locals in declaration order (robust against renaming)
+        if decl.get('kind') == 'ParmVarDecl':
+            self.param_order = getattr(self, 'param_order', []) + [c]
+        else:
+            self.local_order = getattr(self, 'local_order', []) + [c]
         return c
 
     def class_of_method(self, d):
@@ -191,7 +196,8 @@ class FuncLowerer:
             ''.join(x + '\n' for x in self.tmp_decls), '\n'.join(lines))
         u.report['functions'].append({'cxx': u.qualname(d), 'c': self.cname, 'file': d.get('_file'), 'line': d.get('_line'),
                                       'type': u._decl_type_str(d), 'dropped_log_stmts': self.dropped_logs,
-                                      'loops': self.loop_ord, 'atomic_sites': dict(self.atomic_site_count)})
+                                      'loops': self.loop_ord, 'atomic_sites': dict(self.atomic_site_count),
+                                      'params': list(getattr(self, 'param_order', [])), 'locals': list(getattr(self, 'local_order', []))})
         return text
 
     def defaulted_body(self):
@@ -790,6 +796,15 @@ class FuncLowerer:
         self.u.cfg.loop_contracts_used.add((self.cname, self.loop_ord))
         lines = []
         self._rebase = []
+        po, lo = getattr(self, 'param_order', []), getattr(self, 'local_order', [])
+
+        def positional(m):
+            kind, n = m.group(1), int(m.group(2))
+            seq = po if kind == 'p' else lo
+            if n < 1 or n > len(seq):
+                raise Abort('loop contract of %s refers to @%s%d@ but only %d are declared before the loop' % (self.cname, kind, n, len(seq)))
+            return seq[n - 1]
+        t = re.sub(r'@([pl])(\d+)@', positional, t)
         for x in t.strip().split('\n'):
             m = re.match(r'\s*VF_REBASE\((.+?),\s*(.+)\)\s*$', x)
             if m:
